@@ -9,6 +9,7 @@ package regsim
 
 import (
 	"fmt"
+	"sort"
 	"strings"
 
 	"github.com/xjslang/xjs/ast"
@@ -124,6 +125,7 @@ type item struct {
 	arg   string // operand text of the suffix (property, index, argument)
 	word  string // registered word, if any (for substitution)
 	brk   bool   // a line break (instead of a space) precedes this item in the source text
+	tight bool   // nothing precedes this item in the source text (operand written directly after a built-in prefix operator)
 }
 
 // levels: the exported constants of the parser package are public API.
@@ -455,6 +457,34 @@ func substituteFor(level int) (string, bool) {
 	return "", false
 }
 
+// lexerOwnTypes: every token type a plugin-free lexer emits for a text made of all printable ASCII characters, the
+// usual multi-character operators, literals and keywords (type -> one literal it was given to). Computed once.
+var lexerOwn map[token.Type]string
+
+func lexerOwnTypes() map[token.Type]string {
+	if lexerOwn != nil {
+		return lexerOwn
+	}
+	lexerOwn = map[token.Type]string{}
+	var sb strings.Builder
+	for c := 33; c < 127; c++ {
+		if c == '"' || c == '\'' || c == '`' || c == '/' {
+			continue
+		}
+		sb.WriteByte(byte(c))
+		sb.WriteByte(' ')
+	}
+	sb.WriteString(" / == != <= >= && || ++ -- += -= *= /= %= => === !== ** ?? ?. ... << >> >>> & | ^ ~ ? : 1 2.5 0x1F 'a' \"b\" `c` ")
+	sb.WriteString("let function return if else while for true false null var const new this typeof in of do break continue class\n")
+	toks, _ := xutil.LexAllToEnd(lexer.NewBuilder(), sb.String())
+	for _, t := range toks {
+		if _, ok := lexerOwn[t.Type]; !ok {
+			lexerOwn[t.Type] = t.Literal
+		}
+	}
+	return lexerOwn
+}
+
 // ---- probe generation ---------------------------------------------------------------------------------
 
 var operandNames = []string{"a", "b", "c", "d", "e", "f", "g", "h", "k", "m"}
@@ -469,7 +499,9 @@ func render(items []item) string {
 	var sb strings.Builder
 	for i, it := range items {
 		if i > 0 {
-			if it.brk {
+			if it.tight {
+				// nothing between a built-in prefix operator and its operand: `-1`, `!a`
+			} else if it.brk {
 				sb.WriteString("\n  ")
 			} else {
 				sb.WriteByte(' ')
@@ -532,6 +564,12 @@ func genProbe(ch *kernel.Chooser, snap *regModel, st *kernel.Stats) (probe, bool
 			st.Inc("probe.operand_supplied_by_expression_interceptor")
 			return item{kind: kOperand, text: "@", label: "@"}
 		}
+		if ch.Bool(1, 8) {
+			// a numeric literal is an operand like any other (no operator may fuse with it)
+			st.Inc("probe.numeric_literal_operand")
+			n := []string{"1", "7", "42"}[ch.Choose(3)]
+			return item{kind: kOperand, text: n, label: n}
+		}
 		n := operandNames[next%len(operandNames)]
 		next++
 		return item{kind: kOperand, text: n, label: n}
@@ -542,7 +580,7 @@ func genProbe(ch *kernel.Chooser, snap *regModel, st *kernel.Stats) (probe, bool
 	decorated := func(allowPrefix bool) []item {
 		var out []item
 		if allowPrefix && ch.Bool(1, 4) {
-			sym := []string{"-", "!"}[ch.Choose(2)]
+			sym := []string{"-", "!", "-", "!", "++", "--"}[ch.Choose(6)]
 			out = append(out, item{kind: kPrefix, text: sym, label: sym})
 			st.Inc("neighbour.builtin_prefix")
 		}
@@ -667,6 +705,15 @@ func genProbe(ch *kernel.Chooser, snap *regModel, st *kernel.Stats) (probe, bool
 	// layout: a line break may precede any infix operator (built-in or registered) — JavaScript and xjs
 	// continue the expression there; never before a suffix (++, call, index), where they do not
 	for i := 1; i < len(items); i++ {
+		// ... and may follow any prefix operator (built-in or registered): the operand is on the next line
+		if items[i-1].kind == kPrefix && items[i].kind != kOpen && ch.Bool(1, 6) {
+			items[i].brk = true
+			st.Inc("probe.line_break_after_prefix_operator")
+		}
+		if items[i-1].kind == kPrefix && items[i-1].word == "" && items[i].kind == kOperand && !items[i].brk && items[i].text != "@" && ch.Bool(1, 3) {
+			items[i].tight = true
+			st.Inc("probe.operand_written_directly_after_builtin_prefix_operator")
+		}
 		if items[i].kind == kInfix && ch.Bool(1, 6) {
 			items[i].brk = true
 			if items[i].word != "" {
@@ -1064,13 +1111,22 @@ func (e *Engine) Run(prop string, ch *kernel.Chooser, st *kernel.Stats) kernel.R
 				}
 			} else {
 				// distinct from every other name and from every built-in type
+				var same []string
 				for other, oid := range p.model.ids {
 					if oid == id {
-						add("token-id", "token-id|collision", fmt.Sprintf("pair %d: RegisterTokenType(%q) returned %d, which is also the id of %q", pi, name, id, other))
+						same = append(same, other)
 					}
+				}
+				if len(same) > 0 {
+					sort.Strings(same)
+					add("token-id", "token-id|collision", fmt.Sprintf("pair %d: RegisterTokenType(%q) returned %d, which is also the id of %q", pi, name, id, same[0]))
 				}
 				if int(id) <= int(token.NULL) {
 					add("token-id", "token-id|builtin-range", fmt.Sprintf("pair %d: RegisterTokenType(%q) returned %d, inside the built-in token range", pi, name, id))
+				}
+				// "distinct from every built-in type" also means: from every type the lexer hands out on its own
+				if lit, ok := lexerOwnTypes()[id]; ok {
+					add("token-id", "token-id|type-the-lexer-emits-itself", fmt.Sprintf("pair %d: RegisterTokenType(%q) returned %d, which is the type a plain lexer gives to %q", pi, name, id, lit))
 				}
 				p.model.ids[name] = id
 				if !odd {
